@@ -119,13 +119,13 @@ def make_case(args):
                             coords={d: da[d] for d in lead})
 
     aux = dict(wspd=auxarr(2, 20), wdir=auxarr(0, 360), dpt=auxarr(8, 300))
-    C = opcat.catalogue()
+    C = opcat.catalogue(include_hp01=True)
     out = []
     vs = variants(rng, da, aux)
     colsum = np.asarray(da.sum("freq").transpose(..., "dir").values).reshape((-1, nd))
     srt = np.sort(colsum, axis=1)[:, ::-1]
     dp_tie = bool((srt[:, 0] - srt[:, 1] <= 1e-9 * np.maximum(srt[:, 0], 1e-300)).any())
-    for op in rng.sample(sorted(C), 6):
+    for op in rng.sample(sorted(C), 6) + (["hp01"] if icase % 2 == 0 else []):
         if op == "dp" and dp_tie:
             out.append(dict(op=op, variant="base", ambiguous="frequency-summed spectrum has tied maxima: any maximiser is a valid dp", icase=icase))
             continue
@@ -133,6 +133,10 @@ def make_case(args):
             ref = norm(op, opcat.canon(C[op](da, aux)), da)
             atol = abs_tol(op, da)
         except Exception as e:
+            if op == "hp01":
+                # experimental method (its docstring says so): raising on a degenerate spectrum is not a layout question
+                out.append(dict(op=op, variant="base", ambiguous=f"experimental hp01 raised on the base storage: {type(e).__name__}", icase=icase))
+                continue
             out.append(dict(op=op, variant="base", crash=f"{type(e).__name__}: {str(e)[:200]}", icase=icase))
             continue
         for tag, v in vs:
